@@ -209,7 +209,7 @@ impl Check for C18 {
     }
     fn cases(&self, tier: Tier) -> u64 {
         match tier {
-            Tier::Quick => 20_000,
+            Tier::Quick => 50_000,
             Tier::Thorough => 160_000,
         }
     }
